@@ -23,18 +23,15 @@ theorem mkdirTask_fields (t : Task) (s : State) :
   | none => simp
   | some d => simp only; split <;> simp
 
-theorem cmdLoop_no_kill (e : Env) (hk : e.killAt = none) (cs : List Cmd) (k : Nat) (fs : FS) (ran : List Nat) :
-    (cmdLoop e cs k fs ran).2.2 ≠ .killed := by
+theorem cmdLoop_no_kill (e : Env) (ign : Bool) (hk : e.killAt = none) (cs : List Cmd) (k : Nat) (fs : FS) (ran : List Nat) :
+    (cmdLoop e ign cs k fs ran).2.2 ≠ .killed := by
   induction cs generalizing k fs ran with
   | nil => simp [cmdLoop]
   | cons c cs ih =>
     simp only [cmdLoop, hk]
     simp only [reduceCtorEq, if_false]
-    split
-    · simp
-    · split
-      · simp
-      · exact ih _ _ _
+    repeat' split
+    all_goals first | exact ih _ _ _ | simp
 
 theorem runBody_skipped (i : Nat) (t : Task) (dry : Bool) (e : Env) (s : State) :
     (runBody cfg H pr i t dry e s).2.skipped = false := by
@@ -46,11 +43,29 @@ theorem runBody_skipped (i : Nat) (t : Task) (dry : Bool) (e : Env) (s : State) 
     · split <;> rfl
     · split <;> rfl
 
+/-- a `run` that reports "up to date": the check returned no error … -/
+theorem run_skipped_noerr {i : Nat} {t : Task} (ht : pr.tasks[i]? = some t) (e : Env) (s : State)
+    (h : (invoke cfg H pr i .run e s).2.skipped = true) : checkErr t e s.files = false := by
+  cases hce : checkErr t e s.files with
+  | false => rfl
+  | true => rw [invoke_run_err cfg H pr ht e s hce] at h; cases h
+
 /-- a `run` reports "up to date" only when the check said so -/
 theorem run_skipped {i : Nat} {t : Task} (ht : pr.tasks[i]? = some t) (e : Env) (s : State)
     (h : (invoke cfg H pr i .run e s).2.skipped = true) : (isUpToDate H pr t false e.now s).2 = true := by
-  rw [invoke_run cfg H pr ht] at h
-  by_cases hu : (isUpToDate H pr t false e.now s).2 = true
+  rw [invoke_run cfg H pr ht e s (run_skipped_noerr cfg H pr ht e s h)] at h
+  by_cases hu : ((isUpToDate H pr t false e.now s).2 && !interrupted t e) = true
+  · simp only [Bool.and_eq_true] at hu
+    exact hu.1
+  · rw [if_neg hu, runBody_skipped] at h
+    cases h
+
+/-- … and was not interrupted by a failing sibling -/
+theorem run_skipped_cond {i : Nat} {t : Task} (ht : pr.tasks[i]? = some t) (e : Env) (s : State)
+    (h : (invoke cfg H pr i .run e s).2.skipped = true) :
+    ((isUpToDate H pr t false e.now s).2 && !interrupted t e) = true := by
+  rw [invoke_run cfg H pr ht e s (run_skipped_noerr cfg H pr ht e s h)] at h
+  by_cases hu : ((isUpToDate H pr t false e.now s).2 && !interrupted t e) = true
   · exact hu
   · rw [if_neg hu, runBody_skipped] at h
     cases h
@@ -132,7 +147,7 @@ theorem runBody_declined (i : Nat) (t : Task) (e : Env) (s : State) (hd : Declin
 from, at the time of the invocation; on success the stores are untouched, on failure `OnError`
 removes the checksum (method checksum) / the marker (method timestamp). -/
 theorem runBody_effect (i : Nat) (t : Task) (e : Env) (s : State) (hp : Passes t e) :
-    ∃ ok, (runBody cfg H pr i t false e s).1.log = s.log ++ [⟨i, fpNow H pr t s.files, e.now, ok⟩] ∧
+    ∃ ok, (runBody cfg H pr i t false e s).1.log = s.log ++ [⟨i, fpNow H pr t s.files, e.now, ok, srcList pr t s.files⟩] ∧
       (ok = true → (runBody cfg H pr i t false e s).1.sums = s.sums ∧ (runBody cfg H pr i t false e s).1.marks = s.marks) ∧
       (ok = false → (runBody cfg H pr i t false e s).1.sums = (if Cs t then adel s.sums (sumKey t) else s.sums) ∧
         (runBody cfg H pr i t false e s).1.marks = (if Ts t then adel s.marks (tsKey t) else s.marks) ∧
@@ -143,8 +158,8 @@ theorem runBody_effect (i : Nat) (t : Task) (e : Env) (s : State) (hp : Passes t
   have hmk := mkdirTask_fields t s
   unfold runBody
   simp only [hcond, Bool.false_eq_true, if_false]
-  cases hend : (cmdLoop e t.cmds 0 (mkdirTask t s).files []).2.2 with
-  | killed => exact absurd hend (cmdLoop_no_kill e hk _ _ _ _)
+  cases hend : (cmdLoop e t.ignoreError t.cmds 0 (mkdirTask t s).files []).2.2 with
+  | killed => exact absurd hend (cmdLoop_no_kill e _ hk _ _ _ _)
   | done =>
     refine ⟨true, ?_, ?_, ?_⟩
     · simp [hmk.1, hmk.2.2.1]
@@ -202,6 +217,24 @@ theorem isUpToDate_effect (t : Task) (now : Nat) (s : State) :
       simp [hsrc]
     rw [this]
     exact ⟨rfl, rfl, fun x _ => rfl, fun h => absurd h hncs, fun _ => rfl⟩
+
+/-- what the start of a `--force` run (F8F) does to the checksum store and the log: like the check of a
+normal run, or — when that check ends in an error — nothing -/
+theorem forceStart_effect (t : Task) (e : Env) (s : State) :
+    (forceStart H pr t e s).log = s.log ∧ (forceStart H pr t e s).files = s.files ∧
+    (∀ x, (Cs t → x ≠ sumKey t) → aget (forceStart H pr t e s).sums x = aget s.sums x) ∧
+    (Cs t → aget (forceStart H pr t e s).sums (sumKey t) = some (fpNow H pr t s.files) ∨
+            aget (forceStart H pr t e s).sums (sumKey t) = aget s.sums (sumKey t)) := by
+  unfold forceStart
+  split
+  · exact ⟨rfl, rfl, fun _ _ => rfl, fun _ => Or.inr rfl⟩
+  · obtain ⟨h1, h2, h3, h4, _⟩ := isUpToDate_effect H pr t e.now s
+    exact ⟨h1, h2, h3, fun hcs => Or.inl (h4 hcs)⟩
+
+/-- for a timestamp task the check never ends in an error -/
+theorem forceStart_ts {t : Task} (h : t.method = .timestamp) (e : Env) (s : State) :
+    forceStart H pr t e s = (isUpToDate H pr t false e.now s).1 := by
+  simp [forceStart, checkErr_timestamp e s.files h]
 
 theorem applyOp_fields (o : Op) (s : State) :
     (applyOp pr o s).sums = s.sums ∧ (applyOp pr o s).log = s.log ∧ (applyOp pr o s).marks = s.marks := by
